@@ -112,6 +112,9 @@ def transpile_token(
                 after_char = next(iterator, "")
                 if after_char == "`":
                     temp += "`"
+                elif after_char == "":
+                    # A backslash at the very end is just a backslash
+                    temp += "\\\\"
                 else:
                     temp += "\\" + after_char
             elif char == '"':
